@@ -8,7 +8,7 @@ import subprocess
 import sys
 import tempfile
 
-from . import VERIF_DIR, REPO_SRC
+from . import VERIF_DIR, REPO_SRC, die_with_parent
 
 
 # ---------------------------------------------------------------------------------------------
@@ -172,6 +172,9 @@ def guarded(seconds: float, fn, *args, **kw):
         signal.signal(signal.SIGALRM, old)
 
 
+IN_CONFIRM = [0]  # > 0 while the main thread waits for a confirmation subprocess (the worker's watchdog must not fire then)
+
+
 def hang_verdict(data: bytes, depth_limit: int | None, budget_events: int = 200_000_000, hard_cap_s: int = 300, views: bool = True):
     """Re-execute scan(data, depth_limit) in a fresh interpreter counting line events inside multidecoder / pefile
     code (sys.monitoring). Deterministic for a deterministic scan.
@@ -181,6 +184,7 @@ def hang_verdict(data: bytes, depth_limit: int | None, budget_events: int = 200_
     with open(inp, "wb") as f:
         f.write(data)
     env = dict(os.environ)
+    IN_CONFIRM[0] += 1
     try:
         p = subprocess.run(
             [sys.executable, "-m", "vf.hangcheck", inp, "none" if depth_limit is None else str(depth_limit), str(budget_events), "1" if views else "0"],
@@ -189,6 +193,7 @@ def hang_verdict(data: bytes, depth_limit: int | None, budget_events: int = 200_
             capture_output=True,
             text=True,
             timeout=hard_cap_s,
+            preexec_fn=die_with_parent,
         )
         line = (p.stdout.strip().splitlines() or ["{}"])[-1]
         try:
@@ -199,6 +204,7 @@ def hang_verdict(data: bytes, depth_limit: int | None, budget_events: int = 200_
     except subprocess.TimeoutExpired:
         return {"verdict": "cap", "events": -1, "where": "hard cap %ds" % hard_cap_s}
     finally:
+        IN_CONFIRM[0] -= 1
         import shutil
 
         shutil.rmtree(d, ignore_errors=True)
@@ -222,3 +228,34 @@ def locate(root, a, b, typ=None, obf=None, value=None):
             return "shadowed", (n.type, n.obfuscation, s, e)
     over = [(n.type, n.obfuscation, s, e, n.value[:40]) for (s, e, n) in nodes if s < b and a < e]
     return "missing", over[:8]
+
+
+def cpu_budget_verdict(data: bytes, depth_limit, cpu_s: int = 200):
+    """verdict for a case that does not return and produces no line events (stuck in C code, e.g. regex backtracking):
+    re-run it in a fresh interpreter with a CPU-time limit (CPU seconds consumed, not wall-clock, so machine load does not
+    matter; a normal scan of such an input takes milliseconds). Returns dict(verdict, where)."""
+    import re as _re
+    import shutil
+
+    base = os.path.join(VERIF_DIR, ".scratch")
+    os.makedirs(base, exist_ok=True)
+    d = tempfile.mkdtemp(prefix="vf-cpu-", dir=base)
+    inp = os.path.join(d, "in.bin")
+    with open(inp, "wb") as f:
+        f.write(data)
+    try:
+        p = subprocess.run([sys.executable, "-m", "vf.cpucheck", inp, "none" if depth_limit is None else str(depth_limit), str(cpu_s)], cwd=VERIF_DIR, capture_output=True, text=True, timeout=cpu_s * 20 + 600, preexec_fn=die_with_parent)
+        line = (p.stdout.strip().splitlines() or [""])[-1]
+        if p.returncode == 0 and line.startswith("{"):
+            return json.loads(line)
+        frames = _re.findall(r'File "([^"]+)", line \d+ in (\S+)', p.stderr)
+        where = "?"
+        for fn, func in frames:
+            if "/multidecoder/" in fn:
+                where = "%s:%s" % (fn.rsplit("/", 1)[-1], func)
+                break
+        return {"verdict": "cpu-budget", "where": where, "cpu_s": cpu_s, "rc": p.returncode}
+    except subprocess.TimeoutExpired:
+        return {"verdict": "inconclusive", "where": "?"}
+    finally:
+        shutil.rmtree(d, ignore_errors=True)
